@@ -57,6 +57,7 @@ class AMachine(Machine):
 
     # ---- generation ---------------------------------------------------------
     arm_share = 0.2            # share of runs with an ARM (arml) guest; the rest is x86_32
+    mips_guest_share = 0.0     # share of (python-backend) runs with a MIPS guest
 
     def gen_program(self, rng, steer, arch="x86_32"):
         feat = set(f for f in self.features if rng.random() < 0.6)
@@ -65,6 +66,8 @@ class AMachine(Machine):
             feat.discard("multi")      # open finding: multi-store instructions are torn by a fault
         if arch != "x86_32":
             feat -= {"rep", "indirect", "smc"}
+        if arch == "mips32l":
+            feat -= {"multi"}
         return a_sim.gen_program(arch, rng, feat), sorted(feat)
 
     must_features = []
@@ -84,7 +87,8 @@ class AMachine(Machine):
             lines, feat = self.gen_program(prng, steer, arch)
             init = a_sim.default_regs(arch, prng)
         else:
-            arch = "arml" if rng.random() < self.arm_share else "x86_32"
+            r = rng.random()
+            arch = "arml" if r < self.arm_share else "mips32l" if r < self.arm_share + self.mips_guest_share else "x86_32"
             lines, feat = self.gen_program(rng, steer, arch)
             init = a_sim.default_regs(arch, rng)
         knobs = self.gen_knobs(rng)
@@ -118,6 +122,14 @@ class AMachine(Machine):
             for line in cfg["program"]:
                 for tok, pages in (("[R9", (0, 1)), ("R9,", (0, 1)), ("[R10", (0,)), ("R10,", (0,)), ("[R11", (1,)), ("R11,", (1,)),
                                    ("[R8", (2,)), ("SP!", (3,))):
+                    if tok in line:
+                        for pg in pages:
+                            if pg not in used:
+                                used.append(pg)
+            return used or [0]
+        if cfg["arch"] == "mips32l":
+            for line in cfg["program"]:
+                for tok, pages in (("(S2)", (0, 1)), ("(S0)", (0,)), ("(S1)", (1,)), ("(S3)", (2,)), ("(SP)", (3,))):
                     if tok in line:
                         for pg in pages:
                             if pg not in used:
@@ -215,6 +227,64 @@ class AMachine(Machine):
             res["log"] = log.lines
         return res
 
+    def run_replicas_only(self, case, keep_log=False):
+        """C20 on an architecture whose conservative reference schedule is itself suspect (mips32: branch
+        delay slots): no reference, the python and gcc replicas run the same schedule with one block per
+        call - their control points coincide - and are compared with each other: sequence of full-state
+        digests at the control points, breakpoint hits, termination, final state."""
+        log = EventLog(keep_log)
+        probes = {}
+        viol = None
+        cfg = case["cfg"]
+        ticks = 0
+        try:
+            prog = a_sim.Program(cfg["arch"], cfg["program"])
+            out = {}
+            for backend in ("gcc", "python"):
+                c2 = dict(case, cfg=dict(cfg, backend=backend))
+                run = a_sim.TestRun(self.pid, c2, prog, None, log, probes)
+                try:
+                    run.run()
+                    out[backend] = ("ended" if run.ended else "stopped", run.final_digest, list(run.cp_digests),
+                                    [(e[3], e[4]) for e in run.events if e[2] == "hit"])
+                except Violation as v:
+                    if v.cls.endswith(("/no-progress", "/host-exception")):
+                        out[backend] = (v.cls.split("/")[1], v.detail, list(run.cp_digests), [])
+                    else:
+                        raise
+                log.add("replica", backend, out[backend][0], len(out[backend][2]))
+            g, p = out["gcc"], out["python"]
+            probes["replicas_compared"] = 1
+            ticks = len(g[2])
+            if g[0] != "ended" and p[0] != "ended":
+                raise a_sim.Discard("neither replica terminates: %s / %s" % (g[0], p[0]))
+            facts = {"arch": cfg["arch"], "maxline": cfg["knobs"].get("maxline"), "gcc": g[0], "python": p[0],
+                     "breakpoints": any(a[1].startswith("bp") for a in case["actions"])}
+            if g[0] != p[0]:
+                raise Violation("C20/backends-disagree", "%s guest, block length %s: gcc replica %s, python replica %s (%s)"
+                                % (cfg["arch"], cfg["knobs"].get("maxline"), g[0], p[0], (p[1] if p[0] != "ended" else g[1])[:160]), facts)
+            n = min(len(g[2]), len(p[2]))
+            for i in range(n):
+                if g[2][i] != p[2][i]:
+                    raise Violation("C20/backends-disagree", "%s guest, block length %s: the replicas differ at control point %d of %d"
+                                    % (cfg["arch"], cfg["knobs"].get("maxline"), i + 1, n), facts)
+            if len(g[2]) != len(p[2]) or g[1] != p[1]:
+                raise Violation("C20/backends-disagree", "%s guest: final states or control-point counts differ (%d vs %d)"
+                                % (cfg["arch"], len(g[2]), len(p[2])), facts)
+            if g[3] != p[3]:
+                raise Violation("C20/backends-disagree", "%s guest: breakpoint hit sequences differ" % cfg["arch"], facts)
+            probes["runs_completed"] = 2
+        except Violation as v:
+            viol = v.as_dict(None)
+            log.add("VIOLATION", v.cls, v.detail)
+        except a_sim.Discard as d:
+            probes["discarded"] = probes.get("discarded", 0) + 1
+            log.add("discard", str(d))
+        res = {"viol": viol, "digest": log.digest(), "ops": log.n, "ticks": ticks, "probes": probes, "nontrivial": ticks >= 5}
+        if keep_log:
+            res["log"] = log.lines
+        return res
+
     def judge_posthoc(self, run, ref, log, probes):
         """Host-write mode: I1 over the recorded control points."""
         last = -1
@@ -252,6 +322,7 @@ class C21(AMachine):
             "{0,1,2,3,7}, cache limit {3,4,6,10,10000}, warm start; tuner actions at seeded control points (set_options, "
             "clear_jitted_blocks), stop/resume, warm/cold restart; non-trivial = reference has >=5 ticks; distinct = distinct event-log digest")
     actors = ["tuner", "restarter"]
+    mips_guest_share = 0.12
     features = ["mem", "straddle", "stack", "call", "loop", "branch", "rep", "indirect", "multi", "smc"]
     expected_probes = ["tuner_set_options", "tuner_clear_cache", "stop_resume", "restart_warm", "restart_cold", "warm_start",
                        "runs_completed"]
@@ -450,7 +521,35 @@ class C20(AMachine):
             self.features = feats
             self.must_features = []
 
+    mips_share = 0.12
+
+    def run(self, case, keep_log=False):
+        if case["cfg"]["arch"] == "mips32l":
+            return self.run_replicas_only(case, keep_log)
+        return AMachine.run(self, case, keep_log)
+
+    def gen_mips(self, rng, steer):
+        feat = set(f for f in ["mem", "straddle", "stack", "call", "loop", "branch"] if rng.random() < 0.6)
+        lines = a_sim.gen_program("mips32l", rng, feat)
+        knobs = {"maxline": rng.choice([1, 2, 3, 5, 8, 50, 1000]), "quantum": 1, "cache_limit": 10000, "warm": False}
+        cfg = {"arch": "mips32l", "backend": "gcc", "program": lines, "features": sorted(feat),
+               "init_regs": a_sim.default_regs("mips32l", rng), "knobs": knobs, "heal": True, "mode": "replicas"}
+        acts = []
+        for _ in range(rng.choice([0, 0, 1, 2, 4])):
+            r = rng.random()
+            cp = self._cp(rng)
+            if r < 0.5:
+                acts.append([cp, "bp_add", ["L", rng.randrange(16)] if rng.random() < 0.5 else rng.randrange(200), rng.randrange(3)])
+            elif r < 0.8:
+                acts.append([cp, "opt", rng.choice([1, 2, 3, 5, 8, 50]), 1])
+            else:
+                acts.append([cp, "stop"])
+        acts.sort(key=lambda a: a[0])
+        return {"cfg": cfg, "actions": acts}
+
     def gen(self, rng, steer):
+        if rng.random() < self.mips_share:
+            return self.gen_mips(rng, steer)
         case = AMachine.gen(self, rng, steer)
         case["cfg"]["heal"] = rng.random() < 0.8
         case["cfg"]["mode"] = self._mode
